@@ -268,7 +268,14 @@ func countVars(ts []tok) int {
 // body mb.
 func (s *sim) applyBodyOp(op *OpM, tb *hclwrite.Body, mb *mBody) {
 	setAttr := func(what string, do func() *hclwrite.Attribute, upd func(a *mAttr)) {
-		s.call(what, func() { do() })
+		var ret *hclwrite.Attribute
+		s.call(what, func() { ret = do() })
+		// "The return value is the attribute that was either modified in-place or created."
+		var got *hclwrite.Attribute
+		s.call("GetAttribute", func() { got = tb.GetAttribute(op.Name) })
+		if ret == nil || ret != got {
+			fail("accessor_mismatch", "%s(%q) returned %v, GetAttribute afterwards returns %v", what, op.Name, ret != nil, got != nil)
+		}
 		a, _ := mb.attr(op.Name)
 		if a == nil {
 			a = &mAttr{name: op.Name}
@@ -448,6 +455,19 @@ func (s *sim) applyBodyOp(op *OpM, tb *hclwrite.Body, mb *mBody) {
 		case "hold":
 			s.handles = append(s.handles, handle{tbl[i], mbl[i]})
 		}
+	case "clear":
+		s.call("Clear", func() { tb.Clear() })
+		for _, it := range mb.items {
+			if it.block != nil {
+				it.block.parent = nil
+				it.block.hdr = nil
+				clearUnits(it.block.body)
+			}
+		}
+		mb.items = nil
+		mb.free = nil
+		s.res.Effective++
+		s.probe("clear_body")
 	case "append_newline":
 		s.call("AppendNewline", func() { tb.AppendNewline() })
 	default:
